@@ -139,6 +139,11 @@ def run_check(prop, tier, fn, level="other", technique=""):
                     status="analysis-error: internal %s" % e)
     return 2
 
+  dump = os.environ.get("QKSTAT_DUMP")
+  if dump:
+    with open(dump, "w") as fh:
+      json.dump([f.as_dict(prop) for f in rep.findings], fh, indent=1,
+                default=str)
   known = load_known()
   known_idx = {}
   for k in known:
